@@ -61,10 +61,10 @@ def rollover_history(args):
     ops.append({"op": "append_many", "from": 1, "n": n1, "term": 1, "uid0": uid0, "lens": [storerig.BLANK], "batch": batch})
     ops.append({"op": "read", "lo": n1 - 200, "hi": n1 + 5})
     last = n1
-    if variant in ("cut-in-closed", "cut-at-second-file-first"):
+    if variant in ("cut-in-closed", "cut-at-second-file-first", "cut-at-closed-file-last"):
         # a truncation that reaches back to / into the closed first file (an uncommitted batch spanning the roll-over);
         # the roll-over point is read from the catalogue at run time by the "@rollover" placeholder
-        ops.append({"op": "delete_from", "k": "@rollover%+d" % (-50 if variant == "cut-in-closed" else 0)})
+        ops.append({"op": "delete_from", "k": "@rollover%+d" % {"cut-in-closed": -50, "cut-at-second-file-first": 0, "cut-at-closed-file-last": -1}[variant]})
         ops.append({"op": "append_many", "from": "@next", "n": 300, "term": 2, "uid0": uid0 + 500000, "lens": [10, storerig.BLANK, 200], "batch": 50})
         ops.append({"op": "reopen"})
         ops.append({"op": "append_many", "from": "@next", "n": 50, "term": 3, "uid0": uid0 + 600000, "lens": [5], "batch": 0})
@@ -99,6 +99,62 @@ def finish_rollover(hwd, ops, seed, variant):
     return res
 
 
+def exact_step_history(args):
+    """128 records whose encoded sizes add up to exactly (or next to) a varint size boundary of the index delta
+    (16384 = 2^14, 2^21 is too large for a quick run), then more appends, a cut across that entry, reopen"""
+    wd, seed, base, delta = args
+    rnd = random.Random(seed)
+    hwd = os.path.join(wd, "x%d" % seed)
+    os.makedirs(hwd, exist_ok=True)
+    target = 16384 + delta
+    uid = rnd.randrange(1, 10**6) * 1000
+    ops, sizes = [], []
+    # 127 small records, the 128th absorbs the rest
+    for i in range(1, 128):
+        ln = rnd.choice([storerig.BLANK, 0, 5, 11])
+        sizes.append(storerig.rec_size(base, i, 1, ln))
+        uid += 1
+        ops.append({"op": "append", "index": i, "term": 1, "uid": uid, "len": ln})
+    rest = target - sum(sizes)
+    ln = max(0, rest - storerig.rec_size(base, 128, 1, 0))
+    for adj in (0, -1, 1, -2, 2, -3, 3):
+        if ln + adj >= 0 and storerig.rec_size(base, 128, 1, ln + adj) == rest:
+            ln = ln + adj
+            break
+    uid += 1
+    ops.append({"op": "append", "index": 128, "term": 1, "uid": uid, "len": ln})
+    exact = storerig.rec_size(base, 128, 1, ln) == rest
+    # a body of exactly 128 bytes right behind the index entry, then reads that start after it
+    for i in range(129, 141):
+        l2 = rnd.choice([storerig.BLANK, 3, 40])
+        if i == 130:
+            for cand in range(0, 200):
+                if storerig.rec_size(base, i, 1, cand) == 128 + 2:
+                    l2 = cand
+        uid += 1
+        ops.append({"op": "append", "index": i, "term": 1, "uid": uid, "len": l2})
+    ops.append({"op": "read", "lo": 133, "hi": 139})
+    ops.append({"op": "reopen"})
+    ops.append({"op": "read", "lo": 131, "hi": 141})
+    ops.append({"op": "delete_from", "k": 120})
+    uid += 1
+    ops.append({"op": "append", "index": 120, "term": 2, "uid": uid, "len": 7})
+    ops.append({"op": "reopen"})
+    h = storerig.History(hwd, ops)
+    res = {"seed": seed, "n_ops": len(ops), "features": ["index-step-%s%+d" % ("16384" if exact else "near16384", delta)]}
+    try:
+        v = h.run()
+    except storerig.SessionDied as e:
+        res["inconclusive"] = "session died: %s" % e
+        shutil.rmtree(hwd, ignore_errors=True)
+        return res
+    res["stats"] = h.stats
+    if v:
+        res["violation"] = {"signature": "%s/index-step-exact%+d" % (v["symptom"], delta), "witness": {"ops_tail": ops[-8:], "n_ops": len(ops), "violation": v, "history_seed": seed, "step_bytes": target}}
+    shutil.rmtree(hwd, ignore_errors=True)
+    return res
+
+
 def drive(pid, tier, seed, bias, n_hist, n_ops, n_roll, rule, salt=0):
     common.build()
     wd = common.workdir(pid.lower())
@@ -111,9 +167,10 @@ def drive(pid, tier, seed, bias, n_hist, n_ops, n_roll, rule, salt=0):
         results = []
         with ThreadPoolExecutor(max_workers=common.NCPU) as ex:
             futs = [ex.submit(one_history, j) for j in jobs]
-            variants = ["batch-ends-at-rollover", "cut-in-closed", "plain", "cut-in-open", "cut-at-second-file-first"]
+            variants = ["batch-ends-at-rollover", "cut-in-closed", "cut-at-closed-file-last", "plain", "cut-in-open", "cut-at-second-file-first"]
             rfuts = [ex.submit(rollover_history, (wd, seed * 100000 + salt + 40000 + i, base, variants[(i + seed + (2 if salt else 0)) % len(variants)])) for i in range(n_roll)]
-            for f in futs + rfuts:
+            xfuts = [ex.submit(exact_step_history, (wd, seed * 100000 + salt + 60000 + i, base, [0, -1, 1][i % 3])) for i in range(3 if tier == "quick" else 30)]
+            for f in futs + rfuts + xfuts:
                 results.append(f.result())
         absorb(out, results)
         out.extra["base_json_len"] = base
@@ -161,7 +218,7 @@ def run(tier, seed):
             "records; reference vector updated by acknowledged ops only; full comparison after every op and after every reopen. "
             "non-trivial = the history compared >=1 entry after >=1 reopen; distinct = (generator feature, files, pointer-file) tuples")
     if tier == "quick":
-        return drive("C02", tier, seed, "mixed", 160, 60, 3, rule)
+        return drive("C02", tier, seed, "mixed", 160, 60, 4, rule)
     return drive("C02", tier, seed, "mixed", 4000, 90, 16, rule)
 
 
